@@ -47,6 +47,7 @@ def rules(ctx):
     C02.c025(ctx)
     C13.c135(ctx)
     C08.c084(ctx)
+    C08.c086(ctx)   # an ingest installs on top of the current version, not a snapshot from before its stall wait
 
 
 def false_edges_of(f, callee_pat, arg_pred=None):
